@@ -102,7 +102,7 @@ CLAIMED["C03"] = dict(
     level="exploration",
     technique="bounded-exhaustive enumeration of clip configurations (children x clip-rule carriers x transforms x targets x nested clip x clipped ancestors) rendered by an independent point evaluator before and after conversion",
     text="Every configuration of a finite clip grammar (1-3 clipPath children from a library where nonzero and evenodd differ, clip-rule on the child / in its style / inherited from the clipPath, transforms on clipPath and child, four target kinds, clipped clipPath, 0-2 clipped and transformed ancestors) is converted and compared with the source under the reference renderer's set-theoretic clip semantics at lattice and probe points.",
-    note=RENDER_NOTE + " clipPath transform together with a nested clip-path is excluded (specification ambiguous).",
+    note=RENDER_NOTE + " For a clipPath with both a transform and its own clip-path the inner reference is resolved in the user space including that transform (stated reading).",
     design="DESIGN.md 3/C03",
 )
 CLAIMED["C04"] = dict(
